@@ -79,6 +79,8 @@ impl<T> BlockNode<T> {
         debug_assert!(id < BLOCK_SIZE);
         unsafe {
             let data = self.data.get_unchecked(id);
+            #[cfg(may_verif)]
+            crate::verif::point("slot.read", data as *const _ as usize, id as u64);
             data.value.get().read().assume_init()
         }
     }
